@@ -11,6 +11,27 @@ import common
 import byteorder as bo_tr
 
 
+# the host byte order may enter the library only through the twelve modelled conversion helpers
+ENDIAN_SURFACE = [
+    ("host_order_enters_through_the_helpers_only",
+     "Gen.endianDependentNames = [\"Avtp_BeToCpu16\", \"Avtp_BeToCpu32\", \"Avtp_BeToCpu64\", \"Avtp_CpuToBe16\", \"Avtp_CpuToBe32\", "
+     "\"Avtp_CpuToBe64\", \"Avtp_CpuToLe16\", \"Avtp_CpuToLe32\", \"Avtp_CpuToLe64\", \"Avtp_LeToCpu16\", \"Avtp_LeToCpu32\", \"Avtp_LeToCpu64\"]",
+     "by decide"),
+    ("no_host_order_test_outside_Byteorder_h", "Gen.endianMentions = []", "by decide"),
+]
+
+
+def regenerate():
+    with common.Lock("translate"):
+        try:
+            bo = bo_tr.translate(common.REPO)
+        except Exception as ex:
+            raise common.ToolError("Byteorder.h does not translate: %s" % ex)
+        with common.Lock("lake"):
+            bo_tr.emit(bo, os.path.join(common.LEAN, "O1722", "Gen", "Byteorder.lean"))
+    return bo
+
+
 def check(rep, prop, tier, seed):
     rng = common.rng_for(prop, seed)
     thorough = tier == "thorough"
@@ -28,7 +49,7 @@ def check(rep, prop, tier, seed):
         ("helpers_little", "Gen.helpers_little = modelHelpers .little", "by decide"),
         ("helpers_big", "Gen.helpers_big = modelHelpers .big", "by decide"),
         ("all_shapes_understood", "Gen.byteorderOpaque = []", "by decide"),
-    ]
+    ] + ENDIAN_SURFACE
     general = ["O1722.bswap16_testBit", "O1722.bswap32_testBit", "O1722.bswap64_testBit",
                "O1722.bswap16_invol", "O1722.bswap32_invol", "O1722.bswap64_invol",
                "O1722.bytesLE_bswap16", "O1722.bytesLE_bswap32", "O1722.bytesLE_bswap64",
